@@ -31,6 +31,7 @@ func TestRaceFree(t *testing.T) {
 		for _, kind := range []string{"webdav", "caldav", "carddav", "caldav-prefix", "carddav-prefix", "caldav-prefix", "carddav-prefix", "caldav-prefix", "carddav-prefix"} {
 			const n = 8
 			sys := newSystem(kind, n, nil)
+			sys.freshNames = true
 			names := webdavOps
 			if kind != "webdav" {
 				names = []string{"find", "multiget", "query", "get", "put", "options"}
@@ -86,7 +87,7 @@ func TestRaceFree(t *testing.T) {
 			}
 			srv := httptest.NewServer(&webdav.Handler{FileSystem: webdav.LocalFileSystem(dir)})
 			cl, _ := webdav.NewClient(srv.Client(), srv.URL)
-			sys := &sharedSystem{kind: "webdav", wd: cl}
+			sys := &sharedSystem{kind: "webdav", wd: cl, freshNames: true}
 			var wg sync.WaitGroup
 			for g := 1; g <= 4; g++ {
 				wg.Add(1)
